@@ -43,6 +43,11 @@ def inline_call(caller, bb, callee):
         nlc = dict(l)
         nlc["i"] = nl + l["i"]
         caller["locals"].append(nlc)
+    # a result written straight into a whole local of the caller: the helper's return place *is*
+    # that local (so `_0 = Ok(..)` inside the helper stays a construction of the caller's _0)
+    direct = not call["dest"]["proj"]
+    if direct:
+        lm[0] = call["dest"]["local"]
     nb = len(caller["blocks"])
     live = [b for b in callee["blocks"] if not b["cleanup"]]
     bm = {b["i"]: nb + 1 + k for k, b in enumerate(live)}
@@ -61,7 +66,8 @@ def inline_call(caller, bb, callee):
         _rewrite_locals(c, lm)
         t = c["term"]
         if t["k"] == "return":
-            c["stmts"].append({"k": "assign", "place": copy.deepcopy(call["dest"]), "rv": {"k": "use", "op": {"k": "move", "place": {"local": lm[0], "proj": []}}}, "span": t["span"]})
+            if not direct:
+                c["stmts"].append({"k": "assign", "place": copy.deepcopy(call["dest"]), "rv": {"k": "use", "op": {"k": "move", "place": {"local": lm[0], "proj": []}}}, "span": t["span"]})
             c["term"] = {"k": "goto", "target": cont, "span": t["span"]} if cont is not None else {"k": "unreachable", "span": t["span"]}
         else:
             for key in ("target", "otherwise", "resume"):
@@ -326,6 +332,13 @@ def _mk_callee(path, name, trait=None):
 
 
 def _closure_id_of(body, op):
+    """Body id of the callable handed to a combinator: a closure literal, or a plain local
+    function named as a value (`.map_err(to_work_error)`), which is inlined the same way."""
+    if op["k"] == "const":
+        fn = op.get("fn")
+        if fn and fn.get("local") and not fn.get("generic_args"):
+            return fn["path"]
+        return None
     if op["k"] not in ("copy", "move") or op["place"]["proj"]:
         return None
     ty = body["locals"][op["place"]["local"]]["ty"]
@@ -376,10 +389,15 @@ def _inline_closure(body, cb, env_op, arg_ops, dest_local, cont, span):
     live = [b for b in cb["blocks"] if not b["cleanup"]]
     nb = len(body["blocks"])
     bm = {b["i"]: nb + 1 + k for k, b in enumerate(live)}
-    stmts = [_assign(_pl(lm[1]), {"k": "use", "op": copy.deepcopy(env_op)}, span)]
+    if cb["kind"] == "closure":
+        stmts = [_assign(_pl(lm[1]), {"k": "use", "op": copy.deepcopy(env_op)}, span)]
+        first = 2
+    else:
+        stmts = []          # a plain function: no environment parameter
+        first = 1
     for k, a in enumerate(arg_ops):
-        if k + 2 <= cb["arg_count"]:
-            stmts.append(_assign(_pl(lm[k + 2]), {"k": "use", "op": copy.deepcopy(a)}, span))
+        if k + first <= cb["arg_count"]:
+            stmts.append(_assign(_pl(lm[k + first]), {"k": "use", "op": copy.deepcopy(a)}, span))
     body["blocks"].append({"i": nb, "cleanup": False, "stmts": stmts, "term": {"k": "goto", "target": bm[0], "span": span}})
     for b in live:
         c = copy.deepcopy(b)
@@ -401,6 +419,8 @@ def _inline_closure(body, cb, env_op, arg_ops, dest_local, cont, span):
     for dv in cb.get("debug", []):
         v = copy.deepcopy(dv)
         if "local" in v["value"]:
+            if cb["kind"] != "closure" and 1 <= v["value"]["local"] <= cb.get("arg_count", 0) and not v["value"]["proj"]:
+                continue
             _rewrite_locals(v, lm)
             v["arg"] = None
             body["debug"].append(v)
@@ -422,6 +442,76 @@ def _def_call_of(body, local):
             if s["k"] == "assign" and s["place"]["local"] == local and not s["place"]["proj"]:
                 return None
     return found
+
+
+def _single_assign(body, local):
+    """The only definition of `local` (whole): ("assign", rv) | ("call", block index, term) | None."""
+    found = None
+    for b in body["blocks"]:
+        if b["cleanup"]:
+            continue
+        t = b["term"]
+        if t["k"] == "call" and t["dest"]["local"] == local and not t["dest"]["proj"]:
+            if found is not None:
+                return None
+            found = ("call", b["i"], t)
+        for s in b["stmts"]:
+            if s["k"] == "assign" and s["place"]["local"] == local and not s["place"]["proj"]:
+                if found is not None:
+                    return None
+                found = ("assign", s["rv"])
+    return found
+
+
+def _iter_source_local(body, op):
+    """`&mut it` (through reborrows and moves of the reference) -> it."""
+    for _ in range(6):
+        if op["k"] not in ("copy", "move"):
+            return None
+        pl = op["place"]
+        if pl["proj"] and not all(e["k"] == "deref" for e in pl["proj"]):
+            return None
+        d = _single_assign(body, pl["local"])
+        if d is None or d[0] != "assign":
+            return None
+        rv = d[1]
+        if rv["k"] == "ref":
+            p2 = rv["place"]
+            if not p2["proj"]:
+                return p2["local"]
+            if all(e["k"] == "deref" for e in p2["proj"]):
+                op = {"k": "copy", "place": {"local": p2["local"], "proj": []}}
+                continue
+            return None
+        if rv["k"] == "use":
+            op = rv["op"]
+            continue
+        return None
+    return None
+
+
+def _resolve_map_call(body, local):
+    """The `Iterator::map(inner, closure)` call that produced the iterator held in `local`,
+    through moves and `into_iter`."""
+    for _ in range(8):
+        d = _single_assign(body, local)
+        if d is None:
+            return None
+        if d[0] == "assign":
+            rv = d[1]
+            if rv["k"] == "use" and rv["op"]["k"] in ("copy", "move") and not rv["op"]["place"]["proj"]:
+                local = rv["op"]["place"]["local"]
+                continue
+            return None
+        _, bi, t = d
+        p = t["callee"].get("path")
+        if p == "std::iter::Iterator::map" and len(t["args"]) == 2:
+            return bi, t
+        if p in ("std::iter::IntoIterator::into_iter",) and t["args"] and t["args"][0]["k"] in ("copy", "move") and not t["args"][0]["place"]["proj"]:
+            local = t["args"][0]["place"]["local"]
+            continue
+        return None
+    return None
 
 
 def _loop_skeleton(body, iter_op, span):
@@ -608,6 +698,50 @@ def desugar_combinators(raw):
                 used_closures.add(cid)
                 hosts.add(body["id"])
                 n_done += 1
+            elif path == "std::iter::Iterator::next" and len(args) == 1 and not dest["proj"] and not blk.get("map_done"):
+                # `for x in it.map(f)`: the loop's `next` is the inner iterator's `next`
+                # followed by f on the element
+                src = _iter_source_local(body, args[0])
+                if src is None:
+                    continue
+                mc = _resolve_map_call(body, src)
+                if mc is None:
+                    continue
+                mbi, mt = mc
+                cid = _closure_id_of(body, mt["args"][1])
+                cb = bodies.get(cid)
+                if cb is None:
+                    continue
+                # only when this `next` is the sole consumer of that map adaptor
+                n_next = 0
+                for b2 in body["blocks"]:
+                    t2 = b2["term"]
+                    if not b2["cleanup"] and t2["k"] == "call" and t2["callee"].get("path") == "std::iter::Iterator::next" and t2["args"] \
+                            and _iter_source_local(body, t2["args"][0]) == src:
+                        n_next += 1
+                if n_next != 1:
+                    continue
+                n0 = _new_local(body, "std::option::Option<inner item>")
+                d0 = _new_local(body, "isize")
+                res = _new_local(body, "closure result")
+                none_bb = _new_block(body, [_assign(copy.deepcopy(dest), {"k": "aggregate", "kind": {"k": "adt", "adt": "std::option::Option", "variant": "None", "idx": 0, "fields": []}, "ops": []}, span)],
+                                     {"k": "goto", "target": cont, "span": span})
+                some_bb = _new_block(body, [_assign(copy.deepcopy(dest), {"k": "aggregate", "kind": {"k": "adt", "adt": "std::option::Option", "variant": "Some", "idx": 1, "fields": ["0"]}, "ops": [_mv(res)]}, span)],
+                                     {"k": "goto", "target": cont, "span": span})
+                elem = _mv(n0, [{"k": "downcast", "variant": "Some", "idx": 1, "adt": "std::option::Option"}, {"k": "field", "i": 0, "name": "0", "ty": "item"}])
+                entry = _inline_closure(body, cb, mt["args"][1], [elem], res, some_bb, span)
+                sw = _new_block(body, [_assign(_pl(d0), {"k": "discriminant", "place": _pl(n0), "adt": "std::option::Option"}, span)],
+                                {"k": "switch", "discr": _mv(d0), "discr_ty": "isize", "targets": [["0", none_bb], ["1", entry]], "otherwise": _unreachable(body, span), "span": span})
+                t["dest"] = _pl(n0)
+                t["target"] = sw
+                blk["map_done"] = True
+                # the `map` call itself becomes a move of the inner iterator
+                mb = body["blocks"][mbi]
+                mb["stmts"].append(_assign(copy.deepcopy(mt["dest"]), {"k": "use", "op": copy.deepcopy(mt["args"][0])}, span))
+                mb["term"] = {"k": "goto", "target": mt["target"], "span": span}
+                used_closures.add(cid)
+                hosts.add(body["id"])
+                n_done += 1
             elif path in _MATCH_COMBINATORS and len(args) == 2:
                 # good arm / bad arm of the match the combinator abbreviates
                 cid = _closure_id_of(body, args[1])
@@ -665,8 +799,29 @@ def desugar_combinators(raw):
     if used_closures:
         caps = {}
         for b in raw["bodies"]:
-            if b["id"] in used_closures:
+            if b["id"] in used_closures and b["kind"] == "closure":
                 caps[b["id"]] = b.get("captures", [])
         raw["closure_captures"] = caps
-        raw["bodies"] = [b for b in raw["bodies"] if b["id"] not in used_closures]
+        # plain functions used as combinator arguments: dropped only if they are new (not on the
+        # pinned tree) and nothing refers to them any more
+        with open(os.path.join(HERE, "known_functions.json")) as f:
+            known = set(json.load(f)["functions"])
+        refs = set()
+
+        def walk(x):
+            if isinstance(x, dict):
+                if x.get("k") == "const" and isinstance(x.get("fn"), dict):
+                    refs.add(x["fn"].get("path"))
+                if "callee" in x and isinstance(x["callee"], dict):
+                    refs.add(x["callee"].get("path"))
+                for v in x.values():
+                    walk(v)
+            elif isinstance(x, list):
+                for v in x:
+                    walk(v)
+        for b in raw["bodies"]:
+            if b["id"] not in used_closures:
+                walk(b["blocks"])
+        drop = {c for c in used_closures if (bodies[c]["kind"] == "closure") or (c not in known and c not in refs)}
+        raw["bodies"] = [b for b in raw["bodies"] if b["id"] not in drop]
     return raw, n_done
